@@ -25,6 +25,8 @@ pub enum Ty {
     Gen(Box<Ty>),
     Deep(Box<Ty>),
     Two(Box<Ty>, Box<Ty>),
+    /// const-generic user type in a module named like a std one
+    StdLike(u8),
 }
 
 const PRIMS: [&str; 16] = ["u8", "u16", "u32", "u64", "u128", "usize", "i8", "i16", "i32", "i64", "i128", "isize", "f32", "f64", "char", "bool"];
@@ -51,11 +53,12 @@ impl Ty {
             Ty::Gen(t) => format!("vtypes::types::inner::Gen<{}>", t.short()),
             Ty::Deep(t) => format!("vtypes::types::inner::deeper::Deep<{}>", t.short()),
             Ty::Two(a, b) => format!("vtypes::types::Two<{}, {}>", a.short(), b.short()),
+            Ty::StdLike(n) => format!("vtypes::string::String<{}>", 1 + n % 16),
         }
     }
     pub fn depth(&self) -> usize {
         match self {
-            Ty::Prim(_) | Ty::Str | Ty::BoxStr | Ty::Plain => 1,
+            Ty::Prim(_) | Ty::Str | Ty::BoxStr | Ty::Plain | Ty::StdLike(_) => 1,
             Ty::Boxed(t) | Ty::Vector(t) | Ty::Opt(t) | Ty::Array(t, _) | Ty::BoxSlice(t) | Ty::Gen(t) | Ty::Deep(t) => 1 + t.depth(),
             Ty::Res(a, b) | Ty::Two(a, b) => 1 + a.depth().max(b.depth()),
             Ty::Tuple(ts) => 1 + ts.iter().map(|t| t.depth()).max().unwrap_or(0),
@@ -72,8 +75,8 @@ impl Ty {
                 std_used.insert("Box");
                 kinds.insert("box_str");
             }
-            Ty::Plain => {
-                kinds.insert("user_type");
+            Ty::Plain | Ty::StdLike(_) => {
+                kinds.insert(if matches!(self, Ty::Plain) { "user_type" } else { "user_type_std_like_path" });
                 if inside_std {
                     *user_in_std = true;
                 }
@@ -134,7 +137,7 @@ impl Ty {
 }
 
 fn ty_strategy() -> impl Strategy<Value = Ty> {
-    let leaf = prop_oneof![6 => (0u8..16).prop_map(Ty::Prim), 2 => Just(Ty::Str), 1 => Just(Ty::BoxStr), 1 => Just(Ty::Plain)];
+    let leaf = prop_oneof![12 => (0u8..16).prop_map(Ty::Prim), 4 => Just(Ty::Str), 2 => Just(Ty::BoxStr), 2 => Just(Ty::Plain), 1 => (0u8..16).prop_map(Ty::StdLike)];
     leaf.prop_recursive(5, 48, 4, |inner| {
         prop_oneof![
             2 => inner.clone().prop_map(|t| Ty::Boxed(Box::new(t))),
